@@ -1,3 +1,62 @@
+import EaselModel.Sqio.NoFault
 import EaselModel.Sqio.DriverLogic
+/-! # C02 — sequence-file input is total: any bytes give a normal outcome
+
+Property theorems only (proofs are glue on `Sqio/Refine.lean`, `Sqio/NoFault.lean`).
+Model: `Sqio/Model.lean`; every `buf[i]` goes through `Ascii.bufGet` (`none` = outside the buffer = `Status.fault`), every
+store into the `ESL_SQ` checks the allocation the C code made; so "never touches memory outside its objects" is
+"`Status.fault` is not an outcome".
+
+Full statement (DESIGN §5 C02): for every byte string, format selection, text/digital mode, read call and block size `B`, the
+outcome is `ok rec | eof | eformat` (message + line number), `fault`/exception unreachable, every returned record well formed.
+Proved here for every byte string and every `B ≥ 1` (block mode, FASTA-family input maps): the block loader keeps its window
+inside the file and inside `mem` (`loadbuf_total`), `nextchar` — the only primitive of the header parsers — never faults and
+never skips or repeats a byte (`nextchar_total`), `seebuf` — the residue scanner of all five read calls — never faults, never
+leaves the buffer and rejects every byte ≥ 0x80 before it is used as an index (`seebuf_total`), and the two input maps that
+`seebuf` and the digital `addbuf` use classify every symbol consistently (`inmaps_agree`, re-checked against the regenerated
+tables on every run). NOT proved (named here, tied by the differential run + sanitizer build + record monitor): the composition
+of these primitives through `header_fasta` / `read_nres` / `sqascii_Read*` (fuel-bounded loops in the model), the line-based
+formats, the guessers and the alignment-as-sequences branch. -/
 namespace EaselModel.Props.C02
+open EaselModel.Sqio EaselModel.Sqio.Refine EaselModel.Sqio.NoFault
+
+/-- after open / Position (nothing buffered): one `fread`; the handle is well formed, the cursor is at the file position, and
+    the status is `eslEOF` exactly at the end of the file — for every file, position and `B ≥ 1` -/
+theorem loadbuf_total (a : Ascii) (h : Pre a) :
+    WF (loadbuf a).1 ∧ (loadbuf a).1.bpos = 0 ∧ (loadbuf a).1.file = a.file ∧ (loadbuf a).1.B = a.B ∧ pos (loadbuf a).1 = a.fpos ∧
+    ((loadbuf a).2 = .ok ∧ 0 < (loadbuf a).1.nc ∧ a.fpos < a.file.size ∨
+     (loadbuf a).2 = .eof ∧ (loadbuf a).1.nc = 0 ∧ a.fpos = a.file.size) := loadbuf_wf a h
+
+/-- `nextchar` never faults: it returns `eslOK` with the next byte of the *file* (block boundaries are invisible), or `eslEOF`
+    exactly when the cursor was on the last byte; the handle stays well formed. For every `B ≥ 1`. -/
+theorem nextchar_total (a : Ascii) (c : UInt8) (h : WF a) (hb : a.bpos < a.nc) :
+    WF (nextchar a c).1 ∧ (nextchar a c).1.file = a.file ∧ (nextchar a c).1.B = a.B ∧
+    (((nextchar a c).2.1 = .ok ∧ (nextchar a c).1.bpos < (nextchar a c).1.nc ∧ pos (nextchar a c).1 = pos a + 1 ∧
+        a.file[(pos a + 1).toNat]? = some (nextchar a c).2.2) ∨
+     ((nextchar a c).2.1 = .eof ∧ (nextchar a c).2.2 = c ∧ pos a + 1 = a.file.size ∧ (nextchar a c).1.nc = 0 ∧
+        (nextchar a c).1.bpos = 0)) := nextchar_refines a c h hb
+
+/-- in particular `fault` is not an outcome of `nextchar` -/
+theorem nextchar_no_fault (a : Ascii) (c : UInt8) (h : WF a) (hb : a.bpos < a.nc) : (nextchar a c).2.1 ≠ .fault := by
+  rcases (nextchar_refines a c h hb).2.2.2 with h1 | h1 <;> simp [h1.1]
+
+/-- `seebuf` (any residue limit): never a fault, the reported end position lies inside the buffer, the handle stays well formed;
+    only bookkeeping (line geometry, line number, error flag) changes -/
+theorem seebuf_total (a : Ascii) (h : WF a) (hm : a.inmap.size = 128) (maxn : Option Nat) :
+    (seebuf a maxn).2.st ≠ .fault ∧ a.bpos ≤ (seebuf a maxn).2.endpos ∧ (seebuf a maxn).2.endpos ≤ a.nc ∧
+    WF (seebuf a maxn).1 ∧ (seebuf a maxn).1.bpos = a.bpos ∧ (seebuf a maxn).1.nc = a.nc ∧ (seebuf a maxn).1.boff = a.boff ∧
+    (seebuf a maxn).1.file = a.file := seebuf_safe a h hm maxn
+
+/-- the input maps `seebuf` (file map) and digital `addbuf` (alphabet map) agree on what a residue is, for DNA, RNA and amino;
+    and the file maps have 128 entries (so every validated byte is a valid index) -/
+theorem inmaps_agree :
+    ∀ abc ∈ [1, 2, 3], ∀ c : Fin 128,
+      ((inmapFasta abc).getD c.val 0 ≤ 127 → (abcInmap abc).getD c.val 255 ≤ 127) ∧
+      (((inmapFasta abc).getD c.val 0 = Tables.dsqIgnored ∨ (inmapFasta abc).getD c.val 0 = Tables.dsqEol) → (abcInmap abc).getD c.val 0 > 127) ∧
+      (inmapFasta abc).size = 128 := tables_residue_class_agree
+
+/-- non-vacuity: the state right after opening a 5-byte file with B = 2 satisfies `Pre`, and after `loadbuf` the cursor is on a byte -/
+example : Pre { file := #[62, 97, 10, 65, 10], B := 2 } := ⟨rfl, by decide, by decide, by decide, by decide⟩
+example : (loadbuf { file := #[62, 97, 10, 65, 10], B := 2 }).2 = .ok ∧ (loadbuf { file := #[62, 97, 10, 65, 10], B := 2 }).1.nc = 2 := by decide
+
 end EaselModel.Props.C02
